@@ -1,6 +1,7 @@
 mod ast;
 mod build;
 mod errs;
+mod gen;
 mod insp;
 mod replay;
 mod run;
@@ -54,6 +55,28 @@ fn real_main(cmd: String, args: Vec<String>) -> i32 {
                 }
             }
         }
+        "record" => {
+            // cvh record --prop Cxx --family F --n N --seed S --size K --len L --out cases.ndjson
+            let prop = arg(&args, "--prop").unwrap_or("ALL".into());
+            let fam = arg(&args, "--family").unwrap_or("peg".into());
+            let n: usize = arg(&args, "--n").and_then(|x| x.parse().ok()).unwrap_or(1000);
+            let seed: u64 = arg(&args, "--seed").and_then(|x| x.parse().ok()).unwrap_or(1);
+            let size: usize = arg(&args, "--size").and_then(|x| x.parse().ok()).unwrap_or(8);
+            let len: usize = arg(&args, "--len").and_then(|x| x.parse().ok()).unwrap_or(8);
+            let kinds: Vec<String> = arg(&args, "--kinds").unwrap_or("str".into()).split(',').map(|s| s.to_string()).collect();
+            let etys: Vec<String> = arg(&args, "--etys").unwrap_or("rich".into()).split(',').map(|s| s.to_string()).collect();
+            let out = arg(&args, "--out").expect("--out");
+            match record(&prop, &fam, n, seed, size, len, &kinds, &etys, &out) {
+                Ok(k) => {
+                    println!("{}", json!({"recorded": k}));
+                    0
+                }
+                Err(e) => {
+                    eprintln!("record error: {e}");
+                    2
+                }
+            }
+        }
         "one" => {
             // cvh one '<case json>' : run one case and print the full observation
             let j: serde_json::Value = serde_json::from_str(&args[2]).expect("case json");
@@ -74,4 +97,35 @@ fn real_main(cmd: String, args: Vec<String>) -> i32 {
             2
         }
     }
+}
+
+#[allow(clippy::too_many_arguments)]
+fn record(prop: &str, fam: &str, n: usize, seed: u64, size: usize, len: usize, kinds: &[String], etys: &[String], out: &str) -> Result<usize, String> {
+    use std::io::Write;
+    let f = gen::family(fam);
+    let mut r = gen::Rng::new(seed);
+    let mask = replay::mask_for(prop);
+    let mut w = std::io::BufWriter::new(std::fs::File::create(out).map_err(|e| e.to_string())?);
+    let mut k = 0;
+    while k < n {
+        let budget = 2 + r.below(size);
+        let g = gen::gen_wf(&mut r, &f, budget);
+        let inp = gen::gen_input(&mut r, &f, len);
+        let kind = r.pick(kinds).clone();
+        let ety = r.pick(etys).clone();
+        let mode = if r.chance(1, 2) { "E" } else { "C" };
+        let cj = json!({"g": g, "inp": inp, "kind": kind, "ety": ety, "mode": mode});
+        let c = run::Case::from_json(&cj)?;
+        let o = match run::run_case(&c) {
+            Ok(o) => o,
+            Err(_) => continue, // combination not supported by this input kind
+        };
+        let oj = o.to_json();
+        let rec = json!({"g": g, "inp": inp, "kind": kind, "ety": ety, "mode": mode,
+            "res": {"ok": oj["ok"], "out": oj["out"], "errs": oj["errs"], "panic": oj["panic"], "insp": oj["insp"]},
+            "obs": oj["obs"], "mask": mask.to_json()});
+        writeln!(w, "{}", rec).map_err(|e| e.to_string())?;
+        k += 1;
+    }
+    Ok(k)
 }
